@@ -448,7 +448,7 @@ Section Accepted.
     assert (Rej : (ta = TS \/ ta = TB) -> False).
     { intros Hta. eapply (check_rejects g sp x CNeg s2 W2 C2); [|exact H3]. intros g' s0 W0 E0. cbn [check_one].
       assert (Hx0 : head s0 x = Some (bty_head ta)) by (eapply head_keep; [exact E0|exact Hx2|apply rigid_bty]).
-      rewrite (bind_ok _ _ _ _ _ (find_type_ok _ _ _ Hx0)). destruct Hta as [-> | ->]; apply notok_fail. }
+      eapply neg_rejects; [exact Hx0|apply rigid_bty|]. destruct Hta as [-> | ->]; reflexivity. }
     assert (Ta : un_ty Neg ta = Some ta) by (destruct ta; try reflexivity; exfalso; apply Rej; auto).
     assert (Hx3 : head s3 x = Some (bty_head ta)) by (eapply head_keep; [exact E3|exact Hx2|apply rigid_bty]).
     destruct (tail_base _ _ _ _ _ _ Hx3 H) as [-> ->].
